@@ -33,7 +33,7 @@ def frames_class(ev):
 
 def run(ctx):
     q = ctx.quick()
-    pool = cf.ThreadPoolExecutor(max_workers=6)
+    pool = cf.ThreadPoolExecutor(max_workers=8)
     T = ctx.tmp
 
     # ---------- 1. design level: the intended design satisfies the properties, every named defect is rejected
@@ -64,7 +64,7 @@ def run(ctx):
     # flow: a VERIF_SEED sample of the enumerated schedules per shard (direction x unit size x body mode)
     rng = random.Random(ctx.seed)
     allflow = [l for l in open(fl_cases) if l.strip()]
-    per = 900 if q else 9000
+    per = 2000 if q else 12000
     shards = []
     variants = [("srv", 1, False), ("cli", 1, False), ("srv", 8192, False), ("cli", 8192, False),
                 ("srv", 7, True), ("cli", 7, True), ("srv", 8192, True), ("cli", 8192, True)]
